@@ -25,6 +25,8 @@ def classify(ctx: HandlerContext) -> Classification:
     """Classify find command by examining exec flags and delegating inner commands."""
     tokens = ctx.tokens
     base = tokens[0] if tokens else "find"
+    clauses: list[str] = []
+    description = None
 
     for i, token in enumerate(tokens):
         # -ok/-okdir are interactive - always ask
@@ -47,12 +49,16 @@ def classify(ctx: HandlerContext) -> Classification:
             if not inner_tokens:
                 return Classification("ask", description=f"{base} {token}")
 
-            inner_cmd = bash_join(inner_tokens)
-            inner_name = inner_tokens[0]
-            return Classification(
-                "delegate",
-                inner_command=inner_cmd,
-                description=f"{base} {token} {inner_name}",
-            )
+            clauses.append(bash_join(inner_tokens))
+            if description is None:
+                description = f"{base} {token} {inner_tokens[0]}"
+
+    if clauses:
+        # find runs every -exec clause: all of them must be acceptable
+        return Classification(
+            "delegate",
+            inner_command=" ; ".join(clauses),
+            description=description,
+        )
 
     return Classification("allow", description=base)
